@@ -19,6 +19,7 @@ THEOREMS = [
     'Gt.getter_required_default_store', 'Gt.doStore_effect', 'Gt.storeGet_set_same', 'Gt.storeGet_set_other', 'Gt.storeSet_others', 'Gt.storeSet_keys',
     'Gt.getter_only_documented_outcomes', 'Gt.f06_witness', 'Gt.getBool_table_exact', 'Gt.getBool_found', 'Gt.tables_disjoint',
     'Gt.mapT_eq_some', 'Gt.mapT_eq_none',
+    'Gt.pyInt_ascii', 'Gt.pyInt_ascii_neg', 'Gt.getInt_decimal', 'Gt.stripWs_noop',
     # ... composed with parseQS_eq_ref: statements about the raw query string
     'Gt.lastValue_parseQS', 'Gt.lookup_parseQS_isSome', 'Gt.getParam_of_query', 'Gt.getInt_of_query', 'Gt.getBool_of_query', 'Gt.getListT_of_query', 'Gt.getList_of_query',
     # to_query_str (FalconModel/Getters.lean: toQueryStr) and the general round trip (ToQueryStrProofs.lean)
@@ -42,6 +43,8 @@ STATEMENTS = {
     'Gt.getter_last_occurrence': 'whatever the mapping: if the values held for the name are pre ++ [s], get_param returns s and get_param_as_int / _as_bool behave exactly as on the one-entry mapping {name: s} - the last occurrence alone decides',
     'Gt.getInt_bounds_exact': 'when the last value reads as the integer v: the result is v (stored under the name) if min_value <= v <= max_value, each bound counting iff it is not None (0 is a bound), and HTTPInvalidParam with the store untouched otherwise',
     'Gt.getInt_value_iff': 'get_param_as_int returns w  iff  w is the integer read from the last value and every given bound holds (m <= v for min_value = m, v <= m for max_value = m)',
+    'Gt.pyInt_ascii': 'the int() model reads every non-empty string of at most 4300 ASCII digits as the number the digits denote (pyInt_ascii_neg: with a leading minus, its negation)',
+    'Gt.getInt_decimal': 'hence for every natural number v written in decimal as the last value of the name, get_param_as_int returns v iff min <= v <= max',
     'Gt.getInt_not_int': 'a last value int() rejects gives HTTPInvalidParam whatever the bounds',
     'Gt.getter_required_default_store': 'for get_param, _as_int, _as_bool (found = the name has at least one value) and _as_list with or without transform (found = the name is in the mapping): missing+required -> HTTPMissingParam, missing+not required -> the default, both with the store untouched; found -> either HTTPInvalidParam with the store untouched or a value v with exactly the effect store[name] = v (StoreEffect: store None stays None; otherwise get(name) = v, every other key keeps its value, the other entries keep their order, the key list is unchanged or has name appended)',
     'Gt.getter_only_documented_outcomes': 'no getter call, on any mapping with any arguments, escapes with IndexError: it returns a value, the default, or raises one of the two 400 errors, and the store is either untouched or received exactly the returned value; a name whose value is the EMPTY list (the F06 mapping of "?a=,") is missing for the scalar getters (default / HTTPMissingParam) and [] for get_param_as_list',
